@@ -47,3 +47,13 @@ Proof.
   - eapply Forall_impl; [|apply (tokens_ranges 18 x)]. intros [b|len disp]; cbn [tok_range ref_in_range10]; lia.
   - apply tokens_expand.
 Qed.
+
+(* the accumulator length of the extracted guard *)
+Lemma len_acc_eq : forall l acc, len_acc l acc = acc + lenN l.
+Proof.
+  induction l as [|a l IH]; intros acc; cbn [len_acc]; unfold lenN in *; cbn [length]; [lia|].
+  rewrite IH. lia.
+Qed.
+Lemma lenN_tr_eq x : lenN_tr x = lenN x.
+Proof. unfold lenN_tr. rewrite len_acc_eq. lia. Qed.
+
